@@ -383,3 +383,5 @@ def run_concrete(body: Callable[[Ctx], Optional[Failure]], inputs: dict):
         return body(ctx), ctx
     except IgnoreAttempt:
         return None, ctx
+    except Exception as exc:  # same classification as under tracing
+        return Failure("harness-exception", f"{type(exc).__name__}: {exc}"), ctx
